@@ -208,7 +208,11 @@ def main(argv=None) -> int:
 
             with open(REF_LOCALS, "w", encoding="utf-8") as fh:
                 json.dump(reference_table({rel: m.tree for rel, m in repo.by_relpath.items()}), fh, indent=0, sort_keys=True)
-            print("[acsa] reference digest and reference local-name table written")
+            from .equiv import REF_SRC
+
+            with open(REF_SRC, "w", encoding="utf-8") as fh:
+                json.dump({rel: m.source for rel, m in repo.by_relpath.items()}, fh, indent=0, sort_keys=True)
+            print("[acsa] reference digest, reference local-name table and reference sources written")
             return 0
         if ns.cmd == "all":
             worst = 0
